@@ -3,6 +3,7 @@ module github.com/superfly/litefs/verifharness
 go 1.21
 
 require (
+	bazil.org/fuse v0.0.0-20230120002735-62a210ff1fd5
 	github.com/superfly/litefs v0.0.0
 	github.com/superfly/ltx v0.3.14
 	golang.org/x/net v0.17.0
